@@ -2,5 +2,7 @@ SPECIFICATION MCSpec
 CONSTANTS MaxLen = 1
           Cands = "records"
           Reader = "ref"
-INVARIANTS ReadBack CursorExact TxNormalize AllConsumed WireOK NoStuck ExactNormalForm SelfDelimiting
+          MaxKeep = 0
+          Encoder = "fresh"
+INVARIANTS ReadBack CursorExact TxNormalize AllConsumed WireOK KeptWire KeptIntact NoStuck ExactNormalForm SelfDelimiting
 CHECK_DEADLOCK FALSE
